@@ -35,6 +35,12 @@ func execC15(t *testing.T, p Plan, src kernel.Source) Result {
 		warm := w.Connect("main")
 		w.Settle()
 		w.Send(warm, wire.EncodeText(wire.Op{Kind: "get", Keys: []string{"warm"}}))
+		if p.X["warm"] != 0 && d.L2 != nil {
+			// the keys the victim reads are hot in L1 and present in L2 (stored through the
+			// main port; the batch port itself never fills L1)
+			w.Send(warm, wire.EncodeText(wire.Op{Kind: "set", Key: "a", Data: bytes.Repeat([]byte("s"), 40), Flags: 1}))
+			w.Send(warm, wire.EncodeText(wire.Op{Kind: "set", Key: "bb", Data: bytes.Repeat([]byte("L"), 5000), Flags: 2}))
+		}
 		if p.X["l2only"] != 0 && d.L2 != nil {
 			// the keys the victim reads are in L2 only: its gets go through both tiers and
 			// back-fill L1 (the values: one short, one larger than rend's write buffer)
@@ -277,6 +283,7 @@ func c15Streams() map[string][][]wire.Op {
 		{{Kind: "get", Keys: []string{"nokey"}, Quiets: []bool{false}, Opaque: 53}, {Kind: "quit", Opaque: 54}},
 		{{Kind: "get", Keys: []string{"a", "bb"}, Quiets: []bool{true, false}, Opaque: 55}},
 		{{Kind: "get", Keys: []string{"bb", "a", "nokey"}, Quiets: []bool{true, true, false}, Opaque: 58}},
+		{{Kind: "get", Keys: []string{"a", "a", "bb", "nokey"}, Quiets: []bool{true, true, true, false}, Opaque: 62}},
 	}
 	bin := append([][]wire.Op{}, common...)
 	bin = append(bin,
@@ -380,6 +387,20 @@ func enumC15(tier string) []Plan {
 								out = append(out, r)
 							}
 						}
+						// ... and, on the batch port, with the keys hot in L1 (stored via the main port)
+						if c15Reads(ops) && port == "batch" && (tier == "thorough" || cut%3 == 0 || cut >= len(data)-2) {
+							q := p.Clone()
+							q.Seed += 1 << 37
+							q.X["warm"] = 1
+							out = append(out, q)
+							if cut > 0 {
+								r := q.Clone()
+								r.Seed += 1 << 38
+								r.X["close_first"] = 1
+								r.X["silent"] = int64(cut % 2)
+								out = append(out, r)
+							}
+						}
 						// ... and with a second client connected to the same port meanwhile
 						if cut == 0 || cut == len(data) || (tier == "thorough" && cut%5 == 0) || cut%23 == 0 {
 							q := p.Clone()
@@ -414,13 +435,13 @@ func genC15(seed uint64, tier string) Plan {
 		n += len(encode(proto, op))
 	}
 	return Plan{Prop: "C15", Seed: seed, Cfg: cfg, Conns: []ConnSpec{{Port: port, Proto: proto}}, Steps: []Step{{Pipe: ops}},
-		X: map[string]int64{"cut": int64(g.n(n + 1)), "close_first": int64(g.n(2)), "silent": int64(g.n(2)), "bystander": int64(g.n(2)), "l2only": int64(g.n(2))}}
+		X: map[string]int64{"cut": int64(g.n(n + 1)), "close_first": int64(g.n(2)), "silent": int64(g.n(2)), "bystander": int64(g.n(2)), "l2only": int64(g.n(2)), "warm": int64(g.n(2))}}
 }
 
 func init() {
 	register(&Prop{
 		ID: "C15", Gen: genC15, Exec: execC15, Enumerate: enumC15, Level: "fault_enumeration",
-		Rule:       "fault = the client closes its connection after exactly n bytes of its request stream. Enumerated part: representative streams (each command, a large set, pipelines, quiet batches, quiet sets, quit alone / after a miss / after a quiet set, quiet quit; 12 text + 17 binary) x 12 deployments (L1-only / L1L2 / batch port, direct or chunked per-connection handlers, with and without the locking wrapper) x every prefix length n = 0..len (quick: every n for a rotating quarter of the pairs, stride 7 plus both ends for the rest; thorough: every n), each cut also in the variant where the client sends and closes in the same instant so that rend's replies meet a dead socket (EPIPE, and at request ends also the silent write mode). Selected cuts (both ends, every 23rd / thorough every 5th byte) also with a second client that connected to the same port while the first was idle: it must keep its backend connections, still be served after the first client left, and release its own when it leaves in turn. Read-only streams (single and multi-key gets, gat) also with the keys stored in L2 only (a 40-byte and a 5000-byte value, evicted from L1), so that the reads go through both tiers when the client leaves. Seeded part: random pipelines with a random cut, half of them with the second client, half with the keys a, bb in L2 only. After quiescence: rend closed the client socket, every backend connection dialled for that client is closed, the goroutine count is back to the pre-connection baseline, every key lock acquired was released, no pooled protocol object was handed back twice (poisoning pools), and a fresh client is served on the same keys. Every case is non-trivial (a fault is injected in each); distinct = distinct plan hash",
+		Rule:       "fault = the client closes its connection after exactly n bytes of its request stream. Enumerated part: representative streams (each command, a large set, pipelines, quiet batches, quiet sets, quit alone / after a miss / after a quiet set, quiet quit; 12 text + 17 binary) x 12 deployments (L1-only / L1L2 / batch port, direct or chunked per-connection handlers, with and without the locking wrapper) x every prefix length n = 0..len (quick: every n for a rotating quarter of the pairs, stride 7 plus both ends for the rest; thorough: every n), each cut also in the variant where the client sends and closes in the same instant so that rend's replies meet a dead socket (EPIPE, and at request ends also the silent write mode). Selected cuts (both ends, every 23rd / thorough every 5th byte) also with a second client that connected to the same port while the first was idle: it must keep its backend connections, still be served after the first client left, and release its own when it leaves in turn. Read-only streams (single and multi-key gets, gat) also with the keys stored in L2 only (a 40-byte and a 5000-byte value, evicted from L1), so that the reads go through both tiers when the client leaves, and on the batch port with the keys hot in L1 (stored through the main port). Seeded part: random pipelines with a random cut, half of them with the second client, half with the keys a, bb in L2 only. After quiescence: rend closed the client socket, every backend connection dialled for that client is closed, the goroutine count is back to the pre-connection baseline, every key lock acquired was released, no pooled protocol object was handed back twice (poisoning pools), and a fresh client is served on the same keys. Every case is non-trivial (a fault is injected in each); distinct = distinct plan hash",
 		Real:       append(append([]string{}, realFullStack...), "handlers/memcached/chunked", "server/utils.go abort"),
 		Stub:       stubFullStack,
 		FaultKinds: []string{"client_close"},
